@@ -7,6 +7,7 @@ From GHE Require Import Base.QUtil gen.Src.
 Import ListNotations. Open Scope Q_scope.
 """
 CLAMP_SIG = "callsite:match_effective_borehole_resistance:grout-conductivity-clamped"
+KP_SIG = "callsite:equivalent_single_u_tube:pipe-conductivity-root-outside-its-bracket"
 
 
 def gen_cases(rng, tier):
@@ -14,7 +15,7 @@ def gen_cases(rng, tier):
     n = 40 if tier == "quick" else 300
     while len(cs) < n:
         rb = rng.uniform(0.05, 0.12)
-        c = {"rb": rb, "H": rng.uniform(20, 400), "kg": rng.uniform(0.6, 2.5), "ks": rng.uniform(0.8, 4.0), "kp": rng.uniform(0.3, 0.6), "m": rng.uniform(0.05, 1.0),
+        c = {"rb": rb, "H": rng.uniform(20, 400), "kg": rng.uniform(0.6, 2.5), "ks": rng.uniform(0.8, 4.0), "kp": rng.uniform(0.3, 0.6), "m": rng.choice([rng.uniform(0.05, 1.0), rng.uniform(0.05, 1.0), rng.uniform(0.02, 0.07)]),
              "fluid": rng.choice(["water", "propyleneglycol", "ethyleneglycol"]), "conc": rng.choice([0.0, 20.0, 30.0])}
         if c["fluid"] == "water":
             c["conc"] = 0.0
@@ -35,6 +36,8 @@ def gen_cases(rng, tier):
             r_oi = r_oo * 0.9
             r_io = r_oi * rng.uniform(0.45, 0.7)
             c.update(r_oo=r_oo, r_oi=r_oi, r_io=r_io, r_ii=r_io * 0.85)
+            if rng.random() < 0.6:           # insulated centre pipe / enhanced outer pipe: different conductivities
+                c.update(kp_in=rng.choice([0.1, 0.2, 0.4]), kp_out=rng.choice([0.4, 0.6, 1.5]))
         cs.append(c)
     return cs
 
@@ -56,6 +59,29 @@ def oracle(chk, c, o):
         chk.violation("to-single", c, {"fluid_volume": o["vf"], "equivalent": vf2}, "fluid volume per metre preserved")
     if abs(vp2 / o["vp"] - 1) > 1e-9:
         chk.violation("to-single", c, {"pipe_volume": o["vp"], "equivalent": vp2}, "pipe-wall volume per metre preserved")
+    # the inputs of the conversion, recomputed from the geometry (independently of u_tube_volumes / concentric_tube_volumes)
+    if c["kind"] in ("dp", "ds"):
+        vf_i = 4 * math.pi * c["ri"] ** 2
+        vp_i = 4 * math.pi * (c["ro"] ** 2 - c["ri"] ** 2)
+        rp_i = math.log(c["ro"] / c["ri"]) / (4 * 2 * math.pi * c["kp"])
+    else:
+        vf_i = math.pi * (c["r_ii"] ** 2 + c["r_oi"] ** 2 - c["r_io"] ** 2)
+        vp_i = math.pi * (c["r_io"] ** 2 - c["r_ii"] ** 2 + c["r_oo"] ** 2 - c["r_oi"] ** 2)
+        rp_i = math.log(c["r_oo"] / c["r_oi"]) / (2 * math.pi * c.get("kp_out", c["kp"]))
+    n += 1
+    if abs(o["vf"] / vf_i - 1) > 1e-9 or abs(o["vp"] / vp_i - 1) > 1e-9:
+        chk.violation("to-single", c, {"volumes_used": [o["vf"], o["vp"]], "from_the_geometry": [vf_i, vp_i]}, "fluid and pipe-wall volume per metre of the original exchanger")
+    if abs(o["rp"] / rp_i - 1) > 1e-9:
+        chk.violation("to-single", c, {"pipe_resistance_used": o["rp"], "from_the_geometry": rp_i}, "pipe-wall resistance of the original exchanger (outer pipe wall for a coaxial exchanger)")
+    # combined convective-plus-pipe resistance of the equivalent tube (convective part: the implementation's own film coefficient)
+    n += 1
+    want_fp = o["rc"] + rp_i
+    if abs(o["eq_R_fp"] / want_fp - 1) > 1e-4:          # the root solve on the pipe conductivity stops at about 1e-5 relative
+        # the listed defect: the root lies outside the documented bracket [k_p'/100, 10 k_p'] and solve_root clamps to its end
+        kpp = math.log(o["eq_r_out"] / o["eq_r_in"]) / (2 * math.pi * 2 * rp_i)
+        at_end = abs(o["eq_k_pipe"] / (10 * kpp) - 1) < 1e-9 or abs(o["eq_k_pipe"] / (kpp / 100) - 1) < 1e-9
+        chk.violation("to-single", c, {"R_fp_equivalent": o["eq_R_fp"], "R_conv_plus_R_pipe": want_fp, "equivalent_pipe_conductivity": o["eq_k_pipe"], "k_p_prime": kpp},
+                      "the equivalent tube reproduces the combined convective-plus-pipe resistance", signature=KP_SIG if at_end else None)
     clamped_g = abs(o["eq_k_grout"] - 0.01) < 1e-12 or abs(o["eq_k_grout"] - 7.0) < 1e-12
     rel = abs(o["Rb_eq"] / o["Rb"] - 1)
     if rel > 1e-3:
